@@ -62,7 +62,7 @@ class Drv:
                 "codegencmd": c["codegencmd"], "assemblecmd": c["assemblecmd"], "linkcmd": c["linkcmd"]}
 
     def run(self, argv, script=None, files=(), timeout=20.0, nocc=False, rundir=None, keep=False, scan=False,
-            missing=()):
+            missing=(), inherit_ms=None):
         """Run the driver on `argv` in a fresh private cwd containing `files` (relative paths,
         created with their own name as content).  Returns a Run."""
         if rundir is None:
@@ -112,7 +112,12 @@ class Drv:
             r.stdout_id = (st.st_dev, st.st_ino)
             st = os.fstat(fi.fileno())
             r.stdin_id = (st.st_dev, st.st_ino)
-            p = subprocess.Popen([exe] + list(argv), cwd=cwd, env=env,
+            cmd = [exe] + list(argv)
+            if inherit_ms is not None:
+                # the driver inherits a child it never spawned (as in `helper & exec cproc ...`): wait() will hand its
+                # pid to the reaping loop while the stages are still running
+                cmd = ["/bin/sh", "-c", '/bin/sleep %s & exec "$0" "$@"' % (inherit_ms / 1000.0)] + cmd
+            p = subprocess.Popen(cmd, cwd=cwd, env=env,
                                  stdin=fi, stdout=fo, stderr=fe, start_new_session=True)
             r.pid = p.pid
             # blocking wait + watchdog (no polling): on timeout freeze the picture with SIGSTOP,
@@ -187,6 +192,9 @@ def _group_members(pgid):
         f = s[rp + 2:].split()
         # f[0]=state f[1]=ppid f[2]=pgrp f[3]=session
         if int(f[3]) == pgid and int(e) != pgid:
+            comm = s[s.find("(") + 1:rp]
+            if comm == "sleep":
+                continue        # the inherited helper of `inherit_ms` runs (a child the driver never spawned)
             out.append((int(e), f[0]))
     return out
 
